@@ -16,7 +16,10 @@ def unlocal(text):
     """the expansion spells its own parameters and locals with the reserved `__` prefix (fix 25236d4), and so the bindings of its match arms (fix 4defb34:
     `___this_0`, `__l_x`, `___x`); how they are spelled is no property of derive-ex, so the needles and patterns of the replay cases are written with the plain
     names (`this`, `_this_0`, `l_x`, `_x`) and the observed text is brought to that spelling"""
-    return BINDERS.sub(lambda m: "%s_%s" % (m.group(1), m.group(2)), LOCALS.sub(lambda m: m.group(1), text or ""))
+    # the hidden Eq assertion: `fn __f`, its helper `fn __eq` (plain spellings `_f`, `_eq`; reserved since the third naming fix)
+    text = re.sub(r"\bfn __f\b", "fn _f", text or "")
+    text = re.sub(r"\b__eq\b", "_eq", text)
+    return BINDERS.sub(lambda m: "%s_%s" % (m.group(1), m.group(2)), LOCALS.sub(lambda m: m.group(1), text))
 
 
 def observe(case):
